@@ -72,7 +72,7 @@ CHECKS["C05"] = {
 CHECKS["C04"] = {
     "engine": "bootlink-sim",
     "level": "exploration",
-    "text": "SB2.0 (unsigned / signed) and SB2.1 images built through the Python API and, for a quarter of the SB2.1 images, through a generated BD command file (parse_sb21_config -> load_from_config, as nxpimage sb21 export does), with object histories before the judged export (str / update / earlier exports; sections edited after they were put together; equal sections; aliased load buffers; other time zones; another image built first in the same folder) (1..4 sections with arbitrary ids and HMAC-table sizes, all 13 command types with boundary values and load data of every length mod 16, versions, build number, SHA flag, explicit or self-chosen DEK/MAC/nonce/timestamp incl. a counter word next to wrap-around, aware and naive timestamps, RSA-2048/4096 roots, 1..4 root keys in arbitrary RKH slots with the device RKTH computed from what was supplied) are given to two consumers: an independent ROM-loader model (RFC 3394 unwrap, header HMAC for 2.0/2.1, certificate block / RKH table / RSA signature, per-section encrypted header and HMAC table, AES-CTR with the nonce-derived counter measured from file start, command checksums, LOAD CRC) and SPSDK's own parse(). Fault-free: both must yield exactly what was given, and the header fields the supplied values. Storage faults between writer and consumers (bit flip biased to structure boundaries, two-bit CTR malleation that keeps a command header checksum valid, truncation at arbitrary lengths and exactly at section boundaries, wrong KEK, torn replacement) and deliveries through the real McuBoot.receive_sb_file over the simulated link with link faults: each consumer raises or returns equal content, never different content; a delivery that reports success made the device process exactly that content. The fault-free half is, candidly, generated inputs against a reference model (control_runs); the fault half is what the simulation adds.",
+    "text": "SB2.0 (unsigned / signed) and SB2.1 images built through the Python API and, for a quarter of the SB2.1 images, through a generated BD command file or its YAML form (parse_sb21_config -> load_from_config, as nxpimage sb21 export does), with object histories before the judged export (str / update / earlier exports; sections edited after they were put together; equal sections; aliased load buffers; other time zones; another image built first in the same folder) (1..4 sections with arbitrary ids and HMAC-table sizes, all 13 command types with boundary values and load data of every length mod 16, versions, build number, SHA flag, explicit or self-chosen DEK/MAC/nonce/timestamp incl. a counter word next to wrap-around, aware and naive timestamps, RSA-2048/4096 roots, 1..4 root keys in arbitrary RKH slots with the device RKTH computed from what was supplied) are given to two consumers: an independent ROM-loader model (RFC 3394 unwrap, header HMAC for 2.0/2.1, certificate block / RKH table / RSA signature, per-section encrypted header and HMAC table, AES-CTR with the nonce-derived counter measured from file start, command checksums, LOAD CRC) and SPSDK's own parse(). Fault-free: both must yield exactly what was given, and the header fields the supplied values. Storage faults between writer and consumers (bit flip biased to structure boundaries, two-bit CTR malleation that keeps a command header checksum valid, truncation at arbitrary lengths and exactly at section boundaries, wrong KEK, torn replacement) and deliveries through the real McuBoot.receive_sb_file over the simulated link with link faults: each consumer raises or returns equal content, never different content; a delivery that reports success made the device process exactly that content. The fault-free half is, candidly, generated inputs against a reference model (control_runs); the fault half is what the simulation adds.",
     "note": "Trusted: the ROM-loader model c04/rom2.py (validated at start-up on 12 elftosb-made files under golden/sb2, incl. rejection of corrupted copies and of a wrong KEK; a failure there is exit 2), the C10 link/device models, the clock seam. Two genuine deviations are recorded, not repaired: LOAD lengths are padded to 16, and 4-byte binary blobs of BD load statements are written byte-reversed (known_findings.json).",
     "technique": "deterministic simulation with fault injection: build -> storage fault -> simulated link -> independent ROM-loader model and SPSDK parser; seeded images, bit-flip / truncation / wrong-key / torn-write and link-fault injection",
     "design_ref": "4.6",
